@@ -489,7 +489,9 @@ PROPS["C11"] = {
              "'steps'). configure-race unit: a 300-file directory; 16 (thorough 64 per shard) times a file already passed by the scan is "
              "replaced at a delay spread over the duration of one scan while Configure / NewCache runs; the cache must still converge "
              "(the watch has to exist before the scan). regress unit: scripted histories with explicit pacing (cache lock held to delay "
-             "the watcher) for F10, F17 and F18. dirchurn unit: the same machine restricted to directory-level churn (mkdir, remove, rename "
+             "the watcher) for F10, F17 and F18. addrace unit: one directory is created and removed / renamed away 20..300 times in a tight loop "
+             "while 1..3 goroutines keep querying (every query and event tries to watch it again), then a complete directory is renamed "
+             "into place and the cache must converge (F19: a watch added to a directory that was already leaving). dirchurn unit: the same machine restricted to directory-level churn (mkdir, remove, rename "
              "away, rename into place) plus empty creates and move-ins, so that histories are dense in the transitions in which a watch has "
              "to be dropped and re-added. during unit: the harness owns the schedule of one scan - the last file of one directory (any list "
              "position) is a symbolic link to a named pipe outside the configured directories, so NewCache / Configure(dirs) on a manual or "
@@ -516,6 +518,7 @@ PROPS["C11"] = {
         {"name": "rapid", "mode": "rapid", "run": "TestC11Rapid", "race": True, "checks": {"quick": 2400, "thorough": 48000}, "timeout": {"quick": 400, "thorough": 3600}},
         {"name": "during", "mode": "rapid", "run": "TestC11During", "race": True, "shards": 4, "checks": {"quick": 320, "thorough": 8000}},
         {"name": "dirchurn", "mode": "rapid", "run": "TestC11DirChurn", "race": True, "shards": 8, "checks": {"quick": 800, "thorough": 24000}},
+        {"name": "addrace", "mode": "rapid", "run": "TestC11AddRace", "race": True, "shards": 8, "checks": {"quick": 160, "thorough": 4000}},
     ],
 }
 
